@@ -502,4 +502,28 @@ def GEv.authored : GEv → GEv
   | .msg _ signer ds => .msg 0 signer ds
   | e => e
 
+/-! ## (K) a replica with its blockstore: which DAG nodes count as processed, and `Clean`
+
+`handleBlock` ignores a broadcast head whose block is already in the blockstore and `processNode` stops
+at known children: a delta is merged only the first time its node is seen. `crdt.Clean` (behind
+`Consensus.Clean`, `state cleanup`, `state import`) deletes EVERY key under the datastore namespace: the
+set (elements, tombstones, values), the heads, and the blockstore with it — so a cleaned replica that
+is restarted on the same datastore processes every delta again. -/
+
+structure KRep where
+  rep : Rep := {}
+  known : List Id := []          -- nodes in the blockstore
+  deriving DecidableEq, Repr
+
+def KRep.handle (s : KRep) (d : Delta) : KRep :=
+  if s.known.contains d.id then s else { rep := (s.rep.merge d).1, known := d.id :: s.known }
+
+def handleAll (l : List Delta) (s : KRep) : KRep := l.foldl KRep.handle s
+
+/-- `crdt.Clean` as it is: everything under the namespace goes, the blockstore included -/
+def KRep.clean (_ : KRep) : KRep := {}
+
+/-- the alternative that keeps the (immutable, content-addressed) DAG nodes -/
+def KRep.cleanKeepBlocks (s : KRep) : KRep := { s with rep := {} }
+
 end CV.C02
